@@ -94,6 +94,7 @@ type outcome struct {
 	Num     int
 	IsSet   bool
 	Panic   string
+	TxBad   string // a transaction built from the returned selection does not spend exactly the selected coins (checked outside the sweeps)
 }
 
 func selector(kind int, p param) coinset.CoinSelector {
@@ -108,7 +109,7 @@ func selector(kind int, p param) coinset.CoinSelector {
 	return coinset.MinPriorityCoinSelector{MaxInputs: p.MaxIn, MinChangeAmount: bchutil.Amount(p.MinChange), MinAvgValueAgePerInput: p.MinAvg}
 }
 
-func runSel(kind int, p param, offered []coinset.Coin) (o outcome) {
+func runSel(kind int, p param, offered []coinset.Coin, pl *pool) (o outcome) {
 	defer func() {
 		if e := recover(); e != nil {
 			o = outcome{Panic: fmt.Sprint(e)}
@@ -138,6 +139,23 @@ func runSel(kind int, p param, offered []coinset.Coin) (o outcome) {
 	}
 	if cs, ok := res.(*coinset.CoinSet); ok {
 		o.IsSet, o.TV, o.TVA, o.Num = true, int64(cs.TotalValue()), cs.TotalValueAge(), cs.Num()
+	}
+	if pl != nil {
+		// the selection is itself a coin set: the transaction built from it spends the selected coins in order
+		t := coinset.NewMsgTxWithInputCoins(2, res)
+		if len(t.TxIn) != len(sel) {
+			o.TxBad = fmt.Sprintf("%d inputs for a selection of %d coins", len(t.TxIn), len(sel))
+		}
+		for i, in := range t.TxIn {
+			if i < len(sel) {
+				if want, ok := pl.outpoint(sel[i]); !ok || in.PreviousOutPoint != want || in.SignatureScript != nil || in.Sequence != wire.MaxTxInSequenceNum {
+					o.TxBad = fmt.Sprintf("input %d does not spend the outpoint of selected coin %d", i, i)
+				}
+			}
+		}
+		if len(t.TxOut) != 0 || t.LockTime != 0 || t.Version != 2 {
+			o.TxBad = "unexpected outputs, lock time or version"
+		}
 	}
 	return o
 }
@@ -207,6 +225,9 @@ func check(kind int, p param, desc []tcoin, o outcome, out *[]viol) {
 		return
 	}
 	n := len(desc)
+	if o.Ok && o.TxBad != "" {
+		add("tx", "NewMsgTxWithInputCoins(selection): "+o.TxBad, "the transaction spends exactly the selected outpoints in order")
+	}
 	if o.Ok {
 		seen := make([]bool, n)
 		var tv, tva int64
@@ -426,7 +447,11 @@ func corrSel(kind int, p param, desc []tcoin, o outcome) {
 
 // one run: implementation, monitors (when in the property's domain), optionally a correspondence case
 func one(pl *pool, kind int, p param, desc []tcoin, small, corr bool, out *[]viol) outcome {
-	o := runSel(kind, p, pl.coins(desc))
+	txpl := pl
+	if small {
+		txpl = nil
+	}
+	o := runSel(kind, p, pl.coins(desc), txpl)
 	if inDomain(p, desc, small) {
 		check(kind, p, desc, o, out)
 	}
@@ -835,6 +860,7 @@ func history(pl *pool, init []tcoin, extra []tcoin, ops []hop, corr bool) {
 		snapshot(step)
 	}
 	sums(-1)
+	dupSeen := false
 	obs := make([]string, 0, len(ops))
 	coqOps := make([]string, 0, len(ops))
 	nmut := 0
@@ -851,6 +877,11 @@ func history(pl *pool, init []tcoin, extra []tcoin, ops []hop, corr bool) {
 			continue
 		case "push":
 			set.PushCoin(cs[o.Coin])
+			for _, id := range ref {
+				if id == o.Coin {
+					dupSeen = true
+				}
+			}
 			ref = append(ref, o.Coin)
 			coqOps = append(coqOps, fmt.Sprintf("Push (C %d %s %s)", o.Coin, vh.CoqZ(all[o.Coin].V), vh.CoqZ(all[o.Coin].C)))
 		case "pop":
@@ -896,6 +927,9 @@ func history(pl *pool, init []tcoin, extra []tcoin, ops []hop, corr bool) {
 	sums(len(ops))
 	snapshot(len(ops) + 1)
 	rep.Count("history", fmt.Sprint(init, extra, ops), nmut > 0)
+	if dupSeen {
+		rep.Histogram["history_same_coin_twice_in_set"]++
+	}
 	if corr {
 		final := make([]int, 0)
 		itm := make([]string, 0)
@@ -1076,7 +1110,7 @@ func main() {
 		if i%5 == 0 {
 			n = 8 + r.Intn(5) // up to 12: still an insertion sort inside sort.Sort
 		}
-		if i%23 == 0 {
+		if i%11 == 0 {
 			n = 13 + r.Intn(12) // beyond: monitors only (tie-breaking is that of pdqsort)
 		}
 		desc := randDesc(r, n, mode)
@@ -1097,6 +1131,12 @@ func main() {
 		if mode == 4 {
 			rep.Histogram["int64_wrap_domain"]++
 		}
+		if n > 12 {
+			rep.Histogram["beyond_insertion_sort_n13_24"]++
+		}
+		if p.MaxIn > 1000 || p.MaxIn < -1 {
+			rep.Histogram["maxinputs_extreme"]++
+		}
 		if i < 3 {
 			rep.Sample(replayOf(kind, p, desc, o, ""), 6)
 		}
@@ -1114,6 +1154,9 @@ func main() {
 		n := 2 + r.Intn(5)
 		if i%9 == 0 {
 			n = 7 + r.Intn(6)
+		}
+		if i%13 == 0 && regime != 2 {
+			n = 13 + r.Intn(20) // beyond the insertion-sort range of sort.Sort: monitors only
 		}
 		desc := bdDesc(r, n, regime)
 		p := bdParam(r, desc)
@@ -1140,6 +1183,9 @@ func main() {
 		}
 		if !inDomain(p, desc, false) {
 			rep.Histogram[fam+"_outside_domain"]++
+		}
+		if n > 12 {
+			rep.Histogram["beyond_insertion_sort_n13_24"]++
 		}
 	}
 	report(vs)
